@@ -199,6 +199,8 @@ def hook_always(rng, out):
 
 
 def run(ctx, out):
+    import families as _fam
+    out.evaluations += _fam.construction_paths_family(out, PROP)
     import families, random as _random
     out.evaluations += families.noninit_tuple_family(out, PROP, _random.Random(ctx['seed']))
     out.rule = ('generated dataclass definitions (field types, defaults / factories, keyword-only marker, aliases / in_names / rename, '
